@@ -288,28 +288,35 @@ pub struct PartResult {
     pub exhaustive: bool,
 }
 
+fn panic_text(p: Box<dyn std::any::Any + Send>) -> String {
+    if let Some(s) = p.downcast_ref::<String>() {
+        s.clone()
+    } else if let Some(s) = p.downcast_ref::<&str>() {
+        s.to_string()
+    } else {
+        "panic".to_string()
+    }
+}
+
 fn run_guarded<P: Prop>(prop: &P, choices: &[u64]) -> (Outcome, Option<P::Case>) {
-    let res = std::panic::catch_unwind(std::panic::AssertUnwindSafe(|| {
+    let case = match std::panic::catch_unwind(std::panic::AssertUnwindSafe(|| {
         let mut src = Src::new(choices);
-        let case = prop.gen(&mut src);
-        let out = prop.run(&case);
-        (out, case)
-    }));
-    match res {
-        Ok((out, case)) => (out, Some(case)),
+        prop.gen(&mut src)
+    })) {
+        Ok(c) => c,
         Err(p) => {
-            let msg = if let Some(s) = p.downcast_ref::<String>() {
-                s.clone()
-            } else if let Some(s) = p.downcast_ref::<&str>() {
-                s.to_string()
-            } else {
-                "panic".to_string()
-            };
-            (
-                Err(Fail { signature: "panic".into(), message: format!("panicked: {msg}") }),
-                None,
-            )
+            // a panic while decoding a case is a harness error, never a property violation
+            eprintln!("HARNESS ERROR: generator of {}/{} panicked: {}", prop.id(), prop.part(), panic_text(p));
+            std::process::exit(2);
         },
+    };
+    let res = std::panic::catch_unwind(std::panic::AssertUnwindSafe(|| prop.run(&case)));
+    match res {
+        Ok(out) => (out, Some(case)),
+        Err(p) => (
+            Err(Fail { signature: "panic".into(), message: format!("panicked: {}", panic_text(p)) }),
+            Some(case),
+        ),
     }
 }
 
